@@ -25,3 +25,8 @@ Definition bs_degenerate (spot sigma maturity : R) : bool :=
 (* the standard normal distribution function as an integral (used by the Interval case lemmas that tie
    CFBlackScholes._call_put to scipy.stats.norm.cdf) *)
 Definition PhiR (x : R) : R := 1 / 2 + / sqrt (2 * PI) * RInt (fun t => exp (- (t * t) / 2)) 0 x.
+
+(* E[S_t^u] for the exponential model, composed exactly as ExponentialOfLevyModel.log_characteristic_function does
+   (read at x = -i u):  exp(u (log_spot + t (r - d + omega))) * exp(t kappa(u)),  omega = -kappa(1)  (generated pieces) *)
+Definition exp_mgf (kappa : R -> R) (r d : R) (log_spot t u : R) : R :=
+  exp_mgf_formula log_spot t (exp_drift r d (exp_omega kappa)) (levy_mgf t (kappa u)) u.
